@@ -37,19 +37,22 @@ structure Ident where
   raw : Bool
   deriving DecidableEq, Repr, Inhabited
 
-/-- A simple path `a::b::c` or `::a::b` (no generic arguments). -/
+/-- A path `a::b::c` or `::a::b`.  `args = some (n, toks)`: the `n`-th segment carries generic arguments whose
+tokens are `toks` (e.g. `foo::<u8>::bar` is `segs = [foo, bar]`, `args = some (1, [":", ":", "<", "u8", ">"])`); such
+paths can only be written as the *value* of a `crate = ..` option, never as the path of an attribute or option. -/
 structure MPath where
   leading : Bool
   segs : List Ident
+  args : Option (Nat × Toks) := none
   deriving DecidableEq, Repr, Inhabited
 
-def MPath.ofIdent (i : Ident) : MPath := ⟨false, [i]⟩
+def MPath.ofIdent (i : Ident) : MPath := { leading := false, segs := [i] }
 
-/-- `Path::get_ident`. -/
+/-- `Path::get_ident` (a segment with generic arguments is no identifier). -/
 def MPath.getIdent (p : MPath) : Option Ident :=
-  match p.leading, p.segs with
-  | false, [i] => some i
-  | _, _ => none
+  match p.leading, p.segs, p.args with
+  | false, [i], none => some i
+  | _, _, _ => none
 
 /-- `Path::is_ident(s)` (compares the identifier's `to_string()`, so a raw
 identifier never matches a plain keyword). -/
